@@ -129,6 +129,20 @@ Theorem C09_natural_then_other_key_not_weak_order_refuted : exists u v w,
 Proof. exact (ex_intro _ [B "01"; B "z"] (ex_intro _ [B "1"; B "y"] (ex_intro _ [B "1"; B "z"] nat_chain_witness))). Qed.
 Print Assumptions C09_natural_then_other_key_not_weak_order_refuted.
 
+(* NOT PROVED (full statement, kept for the record): on the clean domain -- texts none of whose digit runs exceeds
+   2^63-1 -- the callback of -t is the strict part of a total preorder, hence a strict weak order:
+     Theorem C09_natural_strict_weak_order_on_clean_domain :
+       exists c3 : bytes -> bytes -> Z, total_preorder_on (fun a => clean a = true) c3
+         /\ forall a b, clean a = true -> clean b = true ->
+              (flag_cmp dinfer natsort_less Ft a b <? 0) = (c3 a b <? 0) /\ (flag_cmp dinfer natsort_less Ftr a b <? 0) = (c3 b a <? 0).
+   with clean a := every chunk of (chunkify a) that starts with a digit has chunk_num = Some _, and c3 := the
+   lexicographic three-way comparison of the chunk lists (chunks both numeric: cmpZ of the values; otherwise lex_cmp;
+   a proper prefix first).  Argument: nat_chunks_less ca cb = (c3 <=? 0) for ca <> [] (natsort.Compare is the NON-strict
+   order); the chunk comparison is a total preorder on good chunks because a digit-first and a non-digit-first chunk are
+   ordered by their first bytes alone (all digit chunks lie between the non-digit chunks starting below '0' and those
+   starting above '9'); lexicographic products of total preorders are total preorders.  Missing: the Coq proof (time).
+   On this domain the full checker check_sort is RUN on mlr's natural-sort outputs (cases 'nat') and accepts them. *)
+
 (* What still holds for sorts with natural-order keys on ALL inputs: the weak checker run on such outputs means a
    permutation, groups contiguous in input order, key-less records last, and no group head strictly less than its
    immediate predecessor (what insertion sort -- sort.SliceStable on at most 20 groups -- guarantees for any callback);
